@@ -831,8 +831,11 @@ def run(ctx):
                         "CPython ints are unbounded naturals (N); dict preserves insertion order (CPython >= 3.7)",
                         "UHeap keys are totally ordered (modelled as N); the key function may return a different key at each push",
                         "collections.abc.Set/MutableSet mixins as in the running CPython (3.12) are modelled by hand"]
-    ctx.prove("C34/Props.v")
+    ok = ctx.prove("C34/Props.v")
     ctx.log("proved")
+    if ok and ctx.tier == "thorough" and not ctx.replay:
+        ctx.coqchk("PL.C34.Props")
+        ctx.log("coqchk done")
     if ctx.replay:
         rep = ctx.replay.get("replay", ctx.replay)
         cont = rep.get("container")
